@@ -39,6 +39,14 @@ Inv_C06_quota == c.live => c.quota + Unresolved(c) <= c.maxq \/ b.overreplay \/ 
 \* (so a publish is refused with NotReady only when the window is full) -- "fully usable", C12 / C17
 Inv_Usable == c.live => c.quota = Sat(c.maxq - Unresolved(c))
 
+\* The send-quota arithmetic of this model is an instance of spec/Quota.tla (whose invariant Apalache
+\* shows inductive for all window sizes): every step of Minimq either leaves the four counters alone or
+\* is a step of Quota under this mapping.  Before the first CONNACK the counters are at the local limit.
+Q == INSTANCE Quota WITH Local <- Cap, RMax <- Cap,
+                         ret <- Cardinality({i \in 1..Len(c.ret) : IsPubKind(c.ret[i].k)}),
+                         rel <- Len(c.rel), quota <- c.quota, maxq <- c.maxq, live <- c.live
+QuotaRefines == [][Q!Next]_<< Cardinality({i \in 1..Len(c.ret) : IsPubKind(c.ret[i].k)}), Len(c.rel), c.quota, c.maxq, c.live >>
+
 \* ---- C07: identifiers in flight are distinct and non-zero -------------------------------------------
 InFlightIds == [i \in 1..(Len(c.ret) + Len(c.rel)) |->
                   IF i <= Len(c.ret) THEN c.ret[i].id ELSE c.rel[i - Len(c.ret)].id]
